@@ -101,7 +101,8 @@ CHECKS = {
         text='(1) Every call handing source text to a span-producing specification parser passes the caller\'s whole text '
              '(def-use chain of the argument contains no slicing/trimming callee), so spans index what the user wrote. '
              '(2) For each LexFlags field (read from the ADT) name agreement is checked along the whole plumbing: header '
-             'key -> field, defaults merge, field -> RegexBuilder setter of the same name, CTLexerBuilder setter -> header key.',
+             'key -> field, defaults merge, field -> RegexBuilder setter of the same name, CTLexerBuilder setter -> header key. '
+             '(3) No number that is a setting is narrowed with an `as` cast on its way into a flag (all integer casts enumerated).',
         note='Decides the span-offset clause and the "flags given are the ones in force" clause structurally. Does NOT decide '
              'that rule splitting and escape rewriting denote the right regular language. Trusted: ' + TB,
         technique='def-use provenance of parser inputs + name-agreement check over resolved field indices, callee names and constant strings in MIR',
